@@ -103,7 +103,8 @@ SOURCES = {
     'Call': ('Call', ['f()', 'f(a)', 'f(a, k=b)', 'a.b(c, *d)', 'f(\n a,  # c\n k=1,\n)', 'f(a, b, c)', 'f(k=a, **b)', 'f(g(a), [b])',
                       '_(a)', 'f(a)(b)', 'f(a, k=b, l=c)', 'a.b(x=1, y=[c], z=d)', '(f)(a)']),
     'BinOp': ('BinOp', ['a | b', 'a | b | c', '(a | b) | c', 'a | (b | c)', '1+2j', 'a + b', '-1 - 2j', '(a |\n b)', '1 | None | "s"',
-                        '[a] | {1: b} | f(c)', '[(a).b] | [x]', '(a) | (1)+2j | b']),
+                        '[a] | {1: b} | f(c)', '[(a).b] | [x]', '(a) | (1)+2j | b',
+                        '((a | b) | c) | d', '(a | (b | c)) | d', 'a | ((b | c) | d)', '(größe | ñ) | 日本', '[(a | b) | c, (d | e) | f]']),
     'UnaryOp': ('UnaryOp', ['-1', '-a', '-2j', '- 1', '-(1)', 'not a', '-1.5']),
     'Slice': ('expr_slice', ['a:b', 'a:b:c', ':']),
     'TupleOfSlice': ('expr_slice', ['a:b, c', 'a, b:c:d']),
